@@ -20,6 +20,7 @@ func init() {
 	register(&Prop{
 		ID: "C03",
 		Rule: "documents written by an independent XML writer (own knowledge of the OSM XML vocabulary) from seeded values of every element kind: all optional attributes present or absent, Unicode text needing escapes, any attribute order and layout, comments, single quotes, self-closing and explicit end tags, unknown attributes and unknown elements (subtrees outside the vocabulary), osmChange with repeated and interleaved create/modify/delete blocks, augmented diffs with every action type; each decoded at once and by the streaming scanner; plus attribute lists decoded by model and code; " +
+			"texts also as CDATA sections, in two pieces around a comment or CDATA boundary, and with numeric character references; references beyond 2^53; diff actions with any combination of element/old/new; " +
 			"non-trivial = every op; distinct = distinct op line",
 		Gen:       c03Gen,
 		Exec:      c03Exec,
